@@ -34,7 +34,25 @@ def small_wf(rng, mid):
     return w, g.exprs
 
 
+def many_events_scenario(seed, i, store):
+    """models with many registered start events (`on` entries), deployed, removed and deployed again: removal takes every one of them"""
+    rng = Rng(seed * 49979693 + i)
+    models = []
+    for j, n in enumerate([rng.range(45, 130), rng.range(0, 70)]):
+        models.append({"id": f"m{j}", "on": [{"id": f"ev{k}", "uses": "acts.event.manual"} for k in range(n)],
+                       "steps": [{"id": f"m{j}s1", "acts": [{"id": f"m{j}a1", "uses": "acts.core.irq", "key": "k"}]}]})
+    ops = [["deploy", 0], ["deploy", 1], ["start", "m0", {"pid": "p0"}], ["runall"]]
+    order = rng.shuffle([["rm_model", "m0"], ["rm_model", "m1"], ["act", "next", "p0", {"open": 0}, {}]])
+    for op in order:
+        ops += [op, ["runall"]]
+    ops += [["deploy", 0], ["rm_model", "m0"]]
+    cfg = {"keep": rng.chance(1, 2), "store": store, "rows_each": ["procs", "tasks", "messages", "events", "models"]}
+    return {"id": f"c17-{seed}-{i}-{store}-events", "config": cfg, "models": models, "ops": ops, "exprs": {}, "pids": ["p0"]}
+
+
 def gen_scenario(seed, i, store):
+    if i % 10 == 6:
+        return many_events_scenario(seed, i, store)
     rng = Rng(seed * 49979693 + i)
     keep = rng.chance(1, 2)
     models, exprs = [], {}
@@ -88,7 +106,7 @@ def run(ctx):
             part = scs[lo:lo + 400]
             for pair in zip(part, ctx.harness("run", part, tag="h%d" % (lo // 400))):
                 yield pair
-    stats = {"finished": 0, "endings": {}, "keep_runs": 0, "default_runs": 0, "refused_after_removal": 0, "rm_model": 0}
+    stats = {"finished": 0, "endings": {}, "keep_runs": 0, "default_runs": 0, "refused_after_removal": 0, "rm_model": 0, "max_events_of_a_removed_model": 0}
     for sc, res in batches():
         ctx.cov["evaluations"] += 1
         if res.get("panic") or res.get("crashed"):
@@ -119,12 +137,14 @@ def run(ctx):
                 deployed[w["id"]] = {f"{w['id']}:{a['id']}" for a in w.get("on", [])}
             if op[0] == "rm_model":
                 stats["rm_model"] += 1
+                stats["max_events_of_a_removed_model"] = max(stats["max_events_of_a_removed_model"], len(deployed.get(op[1], ())))
                 deployed.pop(op[1], None)
             # model events: exactly the 'on' entries of the deployed models
             want_ev = set().union(*deployed.values()) if deployed else set()
             got_ev = {r["id"] for r in rows.get("events", [])}
             if got_ev != want_ev:
-                bad = ("events-after-rm-model", f"op {i} {op[:2]}: events {sorted(got_ev)} expected {sorted(want_ev)}")
+                bad = ("events-after-rm-model", f"op {i} {op[:2]}: {len(got_ev)} events registered, expected {len(want_ev)}; "
+                                                f"left over {sorted(got_ev - want_ev)[:3]} missing {sorted(want_ev - got_ev)[:3]}")
             if {r["id"] for r in rows.get("models", [])} != set(deployed):
                 bad = ("model-rows", f"op {i}: model rows {sorted(r['id'] for r in rows.get('models', []))} deployed {sorted(deployed)}")
             prow = {r["id"]: r for r in rows.get("procs", [])}
@@ -179,7 +199,7 @@ def run(ctx):
             ctx.nontrivial([sc["models"], sc["ops"], sc["config"]])
     ctx.sample({"scenario": scs[0]["id"], "config": scs[0]["config"], "ops": scs[0]["ops"][:8]}, limit=1)
     ctx.cov["correspondence"] = {"distribution": stats, "streams_compared": ["rows of procs/tasks/messages/events/models after every operation vs the retention rule", "action results on removed processes"]}
-    ctx.cov["rule"] = ("2-4 interleaved processes of 1-3 models ending by completion, error, abort or skip, rm_model in between, keep_processes on and off, in-memory and SQLite; "
+    ctx.cov["rule"] = ("2-4 interleaved processes of 1-3 models ending by completion, error, abort or skip, rm_model in between (one scenario in ten: models with 45-130 registered start events removed and redeployed), keep_processes on and off, in-memory and SQLite; "
                        "non-trivial = at least two processes finished; distinct by (models, ops, config)")
     ctx.cov["clauses_proved"] = ["removeProc deletes exactly the rows of that pid and no message (all stores)", "removal iff !keep_processes (K1)", "removals commute",
                                  "actions on a removed process are refused first (admission order)", "rm_model removes exactly its events"]
